@@ -24,7 +24,9 @@ def main(path):
         out["detail"] = f"HarnessError: {e}"
     except Exception as e:
         tb = traceback.extract_tb(e.__traceback__)
-        in_repo = bool(tb) and any(fr.filename.startswith("/repo/") for fr in tb[-3:])
+        import os
+        repo = os.environ.get("VERIF_REPO", "/repo").rstrip("/") + "/"
+        in_repo = bool(tb) and any(fr.filename.startswith(repo) for fr in tb[-3:])
         sig = f"exc:{type(e).__name__}"
         if case["kind"] == "crash" and case["sig"].startswith(sig + "@") and in_repo:
             out.update(reproduced=True, sig=case["sig"], detail=f"{type(e).__name__}: {e}"[:1000])
